@@ -13,7 +13,7 @@ from ..ref import names
 from ..report import HarnessError
 
 RULE = ('patterns = all sequences of <=d segments over {literal, {v}, {v}-{w}, {v}_{w}, {v}~{w}, {v}.{w}, {a}-{b}~{c}} with an '
-        'optional trailing {v=**} or trailing literal, <=6 variables, plus "*"; x 11 resource sources (+ an internal-mode library); values = every class for '
+        'optional trailing {v=**} or trailing literal, <=6 variables, plus "*"; x 12 resource sources (+ an internal-mode library); values = every class for '
         'all variables + every single-variable deviation; near misses from the reference tokenizer; non-trivial = distinct '
         '(pattern, valuation) with >=1 variable')
 
@@ -33,7 +33,8 @@ def patterns(depth):
                 def var():
                     nonlocal nv
                     nv += 1
-                    return f'v{nv}'
+                    # the second variable of a pattern has a one-letter name ({z}), the others two letters and more
+                    return 'z' if nv == 2 else f'v{nv}'
                 for k in kinds:
                     if k == 'lit':
                         nl += 1
@@ -55,7 +56,7 @@ def patterns(depth):
 
 
 SOURCES = ['msg-field', 'file-def', 'child-type', 'type-ref', 'dep-file-def', 'dep-msg-ref', 'lro-response', 'deep-ref', 'redeclared-common',
-           'common', 'in-resource-response', 'map-value']
+           'common', 'in-resource-response', 'map-value', 'response-ref']
 COMMON_TYPES = [('cloudresourcemanager.googleapis.com/Project', 'project'), ('cloudresourcemanager.googleapis.com/Organization', 'organization'),
                 ('cloudresourcemanager.googleapis.com/Folder', 'folder'), ('cloudbilling.googleapis.com/BillingAccount', 'billing_account'),
                 ('locations.googleapis.com/Location', 'location')]
@@ -86,12 +87,15 @@ def build(pats, chunk_id, internal=False):
         i = chunk_id * 10000 + j
         tn = type_name(j)
         rtype = f'{DOM}/{tn}'
-        src = j % 11
-        src = {9: 10, 10: 11}.get(src, src)       # 9 is the id of the built-in common resources
+        src = j % 12
+        src = {9: 10, 10: 11, 11: 12}.get(src, src)       # 9 is the id of the built-in common resources
         helper = names.snake(tn)
         if src == 8 and (not redeclared or pat == '*'):
             src = 7
-        if src == 10:     # resource message embedded in a response that is itself a resource message
+        if src == 12:     # file-level definition referenced only by a field of the *response*
+            defs.append((rtype, pat))
+            rs_fields.append(field(f'f{j}', len(rs_fields) + 1, 'string', ref=rtype))
+        elif src == 10:     # resource message embedded in a response that is itself a resource message
             msgs.append(message(tn, [field('name', 1, 'string')], resource=(rtype, pat)))
             holder_fields.append(field(f'f{j}', len(holder_fields) + 1, Q(tn)))
         elif src == 11:   # resource message reachable only as the value type of a map field
